@@ -24,8 +24,9 @@ def valOfJson (j : Json) : Except String Val := do
 
 def pyOfJson (j : Json) : Except String PyVal := do
   let a ← j.getArr?
-  if a.size < 2 then throw "tagged value expected"
+  if a.size < 1 then throw "tagged value expected"
   let tag ← a[0]!.getStr?
+  if tag = "z" then return .none
   if tag = "a" then
     if a.size < 3 then throw "array value expected"
     let sh ← (← a[1]!.getArr?).toList.mapM getNat
@@ -44,6 +45,7 @@ def natsJson (l : List Nat) : Json := Json.arr (l.map (fun n => Json.num (JsonNu
 def pyToJson : PyVal → Json
   | .sc v => valToJson v
   | .arr sh fl => Json.arr #[Json.str "a", natsJson sh, Json.arr (fl.map valToJson).toArray]
+  | .none => Json.arr #[Json.str "z"]
 
 def attrsOfJson (j : Json) : Except String Attrs := do
   let o ← j.getObj?
